@@ -34,6 +34,10 @@ type C12Case struct {
 	// the shell becomes fully attached (arrival out-in only).
 	OchCap        int  `json:"och_cap,omitempty"`
 	StallAtAttach bool `json:"stall_at_attach,omitempty"`
+	// Linger (End in|out): the client of the direction that did not end stays
+	// connected and silent (a background job holding curl open) until the
+	// program has finished.
+	Linger bool `json:"linger,omitempty"`
 }
 
 func probe(addr string) bool {
@@ -286,8 +290,12 @@ func runC12(t testing.TB, c C12Case) (key, what string, classes map[string]int) 
 	// that did not end first may be a client that merely lingers; the server's
 	// graceful stop waits for such a connection, which is outside "the shell
 	// has ended").
-	ic.Close()
-	oc.Close()
+	if !(c.Linger && c.End != "both") {
+		ic.Close()
+		oc.Close()
+	} else {
+		classes["other-client-lingers-"+c.End]++
+	}
 	select {
 	case err := <-s.SrvErr:
 		s.SrvErr <- err
@@ -335,6 +343,7 @@ func genC12() *rapid.Generator[C12Case] {
 			holds = append(holds, 0, 0, 0, 0, 0, 0, 0, 0, 0, 6500, 12000, 31000)
 		}
 		c.HoldMs = rapid.SampledFrom(holds).Draw(t, "hold")
+		c.Linger = c.End != "both" && c.Arrival != "io" && rapid.Bool().Draw(t, "linger")
 		if c.Arrival == "out-in" && rapid.IntRange(0, 2).Draw(t, "stall") == 0 {
 			c.StallAtAttach = true
 			c.OchCap = rapid.SampledFrom([]int{-1, 1, 4}).Draw(t, "ochcap")
